@@ -14,6 +14,18 @@ claimed = {
  'C14': dict(text="Bounded symbolic model checking of the real entry text codec (createCommitMessage x3, parseRSLEntryText and the three state machines, entryBody, setHash, setNumber, githash.NewHash): round trips with symbolic id bytes, trailing reference-name bytes and boundary numbers; parser agreement with an independent reference grammar plus canonical-text fixpoint on structured texts (free lines, and one structured mutation of a complete valid text) with symbolic bytes; header/blank-line variants; all byte strings up to 3 bytes.",
              note="Unstructured byte strings longer than 3-4 bytes are outside the bound; std strings/strconv/pem/hex are interpreted from source or run natively on concrete data (trusted).", ref="DESIGN.md section 4 C14"),
 }
+claimed.update({
+ 'C05': dict(text="Bounded symbolic model checking of the real SignatureVerifier.Verify, gitobject.Verify, dsse.VerifyEnvelope and EnvelopeVerifier.Verify: up to 2 (thorough 3) principals (bare keys or persons with 1-2 keys, optionally sharing a key), thresholds -1..5, a Git object signed by any key / unsigned / absent, and an envelope of up to 2 (thorough 3) signature slots whose signer and validity (made over this payload or lifted from another) are symbolic; the verdict is compared with a matching-based reference (sound) and with exact counting when no key is shared.",
+             note="Signature primitives (ssh/gpg/sigstore) are modelled (EUF-CMA format model); sigstore key type and signature extensions are not exercised; map iteration is insertion order.", ref="DESIGN.md section 4 C05"),
+ 'C06': dict(text="Bounded symbolic model checking of the real State.FindVerifiersForPath / findVerifiersForPathIfProtected walk over 3 (thorough 4) rule files of up to 2 (thorough 3) rules: which file each rule delegates to (cycles, diamonds, missing files), per-rule matches bits and terminating flags are symbolic; the consulted (name, threshold, principals) set is compared with the documented walk.",
+             note="Delegation.Matches is replaced by one symbolic bit per rule name (fnmatch itself is outside this check); ListRules is not covered; rule files are built directly (jsonmodel for envelope payloads).", ref="DESIGN.md section 4 C06"),
+ 'C01': dict(text="Bounded symbolic model checking of the real full-verification path (VerifyRefFull -> VerifyRelativeForRef -> verifyEntry -> verifyGitObjectAndAttestations -> FindVerifiersForPath -> SignatureVerifier.Verify, LoadState, State.Verify, VerifyNewState, all rsl readers) on histories built with gittuf's own recorders: an initial policy with a delegated rule file, then up to 2 (thorough 3) free slots (pushes to a protected, a delegated and an unprotected branch signed by any key / unknown key / unsigned, and policy updates that authorise or de-authorise keys); accept implies every entry authorised by the policy preceding it, authorised histories verify, tip is the latest target.",
+             note="Approvals, tags, propagation entries and annotations are not in this history menu yet (C07/C09 harnesses); crypto, JSON and storage are the stated models; random long histories are outside this technique.", ref="DESIGN.md section 4 C01"),
+ 'C11': dict(text="Bounded symbolic model checking of the real verification path under policies that combine the delegation rules with a global rule drawn from a menu (threshold rule matching / not matching the branch, catch-all threshold 2, block-force-push) over up to 2 (thorough 3) pushes / force pushes with symbolic signers: accept implies delegation rules and every matching global rule satisfied; the known exhaustive-verifier defect is reported as a KNOWN-FINDING with a solver witness.",
+             note="Same models as C01; controller-declared global rules are outside the check.", ref="DESIGN.md section 4 C11"),
+ 'C02': dict(text="Bounded symbolic model checking of LoadCurrentState / LoadState, State.Verify, VerifyNewState(Metadata) and the in-range policy branch of VerifyRelativeForRef: a successor policy state written straight to the policy ref with any declared root principals, root threshold, any subset of old and new keys signing, unconstrained 64-bit root and rule-file versions and a rule-file variant (proper, forged, missing, delegated file dropped, unreachable file); reference entries before and/or after it; verification mode full / latest-only / from-entry / mergeability; an invalid successor must fail every mode that depends on it and LoadCurrentState errs iff the chain is invalid.",
+             note="One successor state (two policy states) per run; controller metadata and WithInitialRootPrincipals are outside the check.", ref="DESIGN.md section 4 C02"),
+})
 reasons = {
  'C20': "hook sandbox confinement/timeouts concern the gopher-lua VM and wall-clock deadlines, which cannot be encoded in SMT through the Go SSA interpreter (DESIGN.md section 4, C20)",
 }
